@@ -55,6 +55,11 @@ func isSortCall(cc *ssa.CallCommon, eff *effects) bool {
 				if len(c2.Args) > 0 && isParamOrSpill(stripIface(c2.Args[0]), sc.Params[0]) && isSortCallShallow(c2) {
 					sorts = append(sorts, b)
 				}
+				// sort.Sort / sort.Stable over a sorter object that holds the parameter in one of its fields and
+				// whose Swap exchanges elements of that field
+				if len(c2.Args) > 0 && isSortCallShallow(c2) && sorterHolds(stripIface(c2.Args[0]), sc.Params[0]) {
+					sorts = append(sorts, b)
+				}
 			}
 		})
 		if len(sorts) > 0 {
@@ -904,4 +909,60 @@ func loadsOnlyIn(al *ssa.Alloc, lp *loopInfo) bool {
 		}
 	}
 	return true
+}
+
+// sorterHolds: v is (a pointer to) a freshly built struct one of whose fields was assigned the parameter prm, and the
+// struct's Swap method stores into elements of that field: sorting the object sorts the parameter's elements in place.
+func sorterHolds(v ssa.Value, prm *ssa.Parameter) bool {
+	al, ok := v.(*ssa.Alloc)
+	if !ok {
+		return false
+	}
+	var held *types.Var
+	for _, r := range *al.Referrers() {
+		fa, ok := r.(*ssa.FieldAddr)
+		if !ok {
+			continue
+		}
+		for _, r2 := range *fa.Referrers() {
+			if st, ok := r2.(*ssa.Store); ok && st.Addr == ssa.Value(fa) && isParamOrSpill(st.Val, prm) {
+				held, _ = fieldOfAddr(fa)
+			}
+		}
+	}
+	if held == nil {
+		return false
+	}
+	// the Swap method of the struct's type
+	pt, ok := al.Type().(*types.Pointer)
+	if !ok {
+		return false
+	}
+	prog := al.Parent().Prog
+	ms := prog.MethodSets.MethodSet(types.NewPointer(pt.Elem()))
+	for i := 0; i < ms.Len(); i++ {
+		if ms.At(i).Obj().Name() != "Swap" {
+			continue
+		}
+		f, ok := ms.At(i).Obj().(*types.Func)
+		if !ok {
+			continue
+		}
+		sw := prog.FuncValue(f)
+		if sw == nil || sw.Blocks == nil {
+			continue
+		}
+		swaps := false
+		eachInstr(sw, func(_ *ssa.BasicBlock, in ssa.Instruction) {
+			if st, ok := in.(*ssa.Store); ok {
+				if ia, ok := st.Addr.(*ssa.IndexAddr); ok {
+					if fld, _ := loadOfField(ia.X); fld == held {
+						swaps = true
+					}
+				}
+			}
+		})
+		return swaps
+	}
+	return false
 }
